@@ -15,6 +15,10 @@ ENGINES.append(dict(name="engine-B-trace", path="/verif/harness (TestClientConnT
                     kind_free_text="code -> spec: seeded random drivers that are not derived from the spec run the real client (and server) in virtual time and record one ndjson event per observable step; "
                                    "TLC replays the events through the specification's actions (trace specification, POSTCONDITION on the high-water mark) and evaluates the invariants at every step"))
 
+ENGINES.append(dict(name="engine-G-gates", path="/verif/harness/steps_sys.go + /verif/spec/TurnServerSteps.tla", serves_properties=["C18", "C15", "C07"],
+                    kind_free_text="gated schedules: TLC enumerates interleavings of handler micro-steps with timer callbacks and teardown; the harness parks every goroutine at the code's scheduling marks "
+                                   "(build-tagged verifhook.At calls, operator call-outs) and releases them in TLC's order under virtual time"))
+
 NOTES = ("Model-based verification with an explicit TLA+ specification (see DESIGN.md). exit 0 = held on everything explored; "
          "exit 1 = VIOLATION line from real-code behaviour; exit 2 = machinery failure (never a verdict). "
          "VERIF_SEED selects the concrete binding of model names (address forms, peer encodings) and payload bytes.")
@@ -63,6 +67,9 @@ TEXT = {
     "C20": dict(engine="engine-A-walk", design_ref="6/C20", technique="TLA+ spec of the generators' port bookkeeping (RelayGen.tla) + TLC + replay of every allocate/close history on the real generators over real loopback sockets",
                 level_note="Trusted: TLC, Go, the kernel's bind semantics. Bounded: ranges (61100-61101, 65534-65535, single port, 4 ports), MaxRetries 1..3, UDP+TCP, IPv4+IPv6, requested and unrequested ports, all fill/drain histories of those ranges.",
                 level_text="Action properties C20_NeverShared / C20_InRange / C20_Requested / C20_FailOnlyWhenFull are model-checked; every edge is replayed on the three real generators with a scripted random source and real sockets."),
+    "C18": dict(engine="engine-G-gates", design_ref="6/C18", technique="TLA+ refinement at critical-section granularity (TurnServerSteps.tla) + TLC over all interleavings + deterministic replay of each interleaving on the real server with gated goroutines",
+                level_note="Trusted: TLC, Go, synctest, the scheduling marks (verifhook). Bounded: one allocation, one permission, one channel, one request in flight against up to three pending timer callbacks. The data-race clause and 'all control-flow paths' are outside what this technique decides (see assumptions).",
+                level_text="NoCrash, NoDeadlock, LocksBalanced and Answered are invariants of the Steps model over all interleavings; each interleaving TLC finds is replayed step by step on the real code (gates at the marks), which must park where the model says, emit the events the model says, answer, leave every lock free and survive a one-hour drain."),
     "C19": core("6/C19", "Responses go to the requester with its transaction id; Binding/Allocate report the true mapped address, the relayed address that really is the allocation's and no other's, and the lifetime in force; retransmitted Allocate is replayed, another Allocate gets 437 and changes nothing."),
 }
 
